@@ -98,6 +98,8 @@ type storeAcct struct {
 	done     map[uintptr]bool
 	loadEnds [][]ipfslog.Log // batches in emission order (to print)
 	printed  int
+	loadQ    [][]ipfslog.Entry // heads of every replicator Load call, in order (to print)
+	printedQ int
 }
 
 type World struct {
@@ -242,6 +244,11 @@ func (w *World) hook(name string, args ...interface{}) {
 			a := w.acctOf(s)
 			a.emitted = append(a.emitted, logsID(logs))
 			a.loadEnds = append(a.loadEnds, append([]ipfslog.Log(nil), logs...))
+		}
+	case "replicator.load.queued":
+		if s, ok := w.byRepl[ptrOf(args[0])]; ok {
+			a := w.acctOf(s)
+			a.loadQ = append(a.loadQ, append([]ipfslog.Entry(nil), args[2].([]ipfslog.Entry)...))
 		}
 	case "store.loadend.done":
 		logs := args[1].([]ipfslog.Log)
@@ -631,7 +638,13 @@ func (w *World) flushLoadEnds(p int, s iface.Store) {
 	a := w.acctOf(s)
 	batches := a.loadEnds[a.printed:]
 	a.printed = len(a.loadEnds)
+	loads := a.loadQ[a.printedQ:]
+	a.printedQ = len(a.loadQ)
 	w.mu.Unlock()
+	for _, hs := range loads {
+		// what Sync handed to the replicator (one line per Load call)
+		w.printf("loadq %d %s\n", p, w.names2(hs))
+	}
 	for _, logs := range batches {
 		parts := make([]string, len(logs))
 		for i, l := range logs {
